@@ -9,9 +9,11 @@ import (
 
 	"github.com/olive-io/bpmn/schema"
 	bpmn "github.com/olive-io/bpmn/v2"
+	"github.com/olive-io/bpmn/v2/pkg/clock"
 	"github.com/olive-io/bpmn/v2/pkg/data"
 	"github.com/olive-io/bpmn/v2/pkg/event"
 	"github.com/olive-io/bpmn/v2/pkg/id"
+	"github.com/olive-io/bpmn/v2/pkg/timer"
 	"github.com/olive-io/bpmn/v2/pkg/tracing"
 
 	"verif/sim/simlog"
@@ -204,6 +206,7 @@ type ProcCase struct {
 	RealIDs  bool     `json:"realIDs,omitempty"` // use the engine's real default id generator (C20)
 	Meta     map[string]int `json:"meta,omitempty"`
 	Objs     map[string]any `json:"objs,omitempty"` // initial data objects
+	MockTimers bool         `json:"mockTimers,omitempty"` // the process gets the timer event-definition builder on a mock clock; "clock" entries of Events advance it
 
 	env  *Env
 	defs *schema.Definitions
@@ -274,11 +277,22 @@ func (c *ProcCase) Main() {
 	ctx, cancel := context.WithCancel(context.Background())
 	defer cancel()
 	gen := &ctrGen{prefix: "id"}
+	var mock *clock.Mock
+	var timerOpts []bpmn.Option
+	if c.MockTimers {
+		mock = clock.NewMockAt(time.Unix(0, 0))
+		ctx = clock.ToContext(ctx, mock)
+		fan := event.NewFanOut()
+		ttr := tracing.NewTracer(ctx)
+		builder := event.DefinitionInstanceBuildingChain(timer.EventDefinitionInstanceBuilder(ctx, fan, ttr))
+		timerOpts = []bpmn.Option{bpmn.WithTracer(ttr), bpmn.WithProcessEventDefinitionInstanceBuilder(builder), bpmn.WithEventEgress(fan), bpmn.WithEventIngress(fan)}
+	}
 	engine := bpmn.NewEngine(bpmn.WithEngineContext(ctx))
 	opts := []bpmn.Option{bpmn.WithContext(ctx), bpmn.WithVariables(c.Prog.Vars)}
 	if !c.RealIDs {
 		opts = append(opts, bpmn.WithIdGenerator(gen))
 	}
+	opts = append(opts, timerOpts...)
 	proc, err := engine.NewProcess(c.defs, opts...)
 	if err == nil && len(c.Objs) > 0 {
 		if loc, ok := proc.Locator().FindIItemAwareLocator(data.LocatorObject); ok {
@@ -513,6 +527,16 @@ func (c *ProcCase) Main() {
 				if len(pending) == 0 || opt == len(pending) {
 					ep := quiet[0]
 					quiet = quiet[1:]
+					if ep.Kind == "clock" {
+						// not an event: the mock clock of the instance's timers moves on
+						if mock != nil {
+							dur, _ := time.ParseDuration(ep.Ref)
+							L.Add("clock-advance", ep.Ref, "", 0)
+							env.fault("clock-jump")
+							mock.Add(dur)
+						}
+						continue
+					}
 					if ep.Burst > 0 && len(quiet) > 0 {
 						// a burst: this event and the following ones back to back
 						group := []EvPlan{ep}
